@@ -531,7 +531,7 @@ class C05(Cfg):
     ]
 
     def streams(self, tier, seed, work, dv):
-        n = 150 if tier == "quick" else 3500
+        n = 900 if tier == "quick" else 3500
         path = os.path.join(work, "queries.ops")
         lib.sh([dv, "gen", "--prop", "C05", "--seed", str(seed), "--n", str(n), "--tier", tier, "--out", path], check=True)
         # the fragment of the SQL compiler theorem: text, bound values, predicted rows, stored table
